@@ -12,7 +12,7 @@ import sys
 import time
 import traceback
 
-from . import core
+from . import core, cover
 
 
 def child_main(args):
@@ -24,6 +24,7 @@ def child_main(args):
         replay = json.load(open(args.replay))
         seed = int(replay.get('seed', seed))
         tier = replay.get('tier', tier)
+    cover.start(os.environ.get('VERIF_REPO', '/repo'))
     try:
         mod = importlib.import_module(f'vlib.checks.{pid.lower()}')
     except ModuleNotFoundError as e:
@@ -41,7 +42,43 @@ def child_main(args):
     except Exception as e:  # harness failure is never a verdict about the repo
         traceback.print_exc()
         run.note_inconclusive(f'harness error: {type(e).__name__}: {e}')
+    try:
+        cover.stop()
+        files, funcs = anchored(pid)
+        files = list(getattr(mod, 'REACH_FILES', files))
+        funcs = list(getattr(mod, 'REACH_FUNCTIONS', funcs))
+        rep = cover.summarize(cover.report(files, funcs or None))
+        if not rep:
+            rep = cover.summarize(cover.report(files, None))
+        run.extra['statement_reach'] = rep
+        if os.environ.get('VERIF_COVER_DUMP'):  # raw per-file line sets, for tools/reach_union.py
+            os.makedirs(os.environ['VERIF_COVER_DUMP'], exist_ok=True)
+            json.dump(cover.dump(), open(os.path.join(os.environ['VERIF_COVER_DUMP'], f'{pid}.json'), 'w'))
+    except Exception as e:  # the reach report is an observation about the workload, never a verdict
+        run.extra['statement_reach'] = f'unavailable: {type(e).__name__}: {e}'
     return run.finish()
+
+
+def anchored(pid):
+    """files and function names the property is anchored in (from properties.jsonl)."""
+    import re
+
+    files, funcs = [], []
+    path = os.path.join(os.environ.get('VERIF_HOME', os.path.dirname(os.path.dirname(__file__))), 'properties.jsonl')
+    for line in open(path):
+        p = json.loads(line)
+        if p['id'] != pid:
+            continue
+        a = p.get('anchors', {})
+        files = [f for f in a.get('files', []) if f.endswith('.py')]
+        for m in a.get('mechanism', []):
+            where = m.get('where', '')
+            if ':' in where:
+                for name in re.split(r',| and ', where.split(':', 1)[1]):
+                    name = name.strip().split(' ')[0]
+                    if re.fullmatch(r'[A-Za-z_][\w.]*', name):
+                        funcs.append(name.split('.')[-1])
+    return files, funcs
 
 
 def main():
